@@ -168,3 +168,39 @@ def tdiv(a, b):
 def trem(a, b):
     """Remainder of truncating division: a - b*tdiv(a,b)."""
     return a - b * tdiv(a, b)
+
+
+def chain_spec(k, K, fn):
+    """fn(k) for k in range(K); symbolic k (known to lie in range(K)) becomes an
+    If-chain over the K cases."""
+    if isinstance(k, (SymInt, SymBool)):
+        ek = as_z3_int(k)
+        e = as_z3_int(fn(K - 1))
+        for j in range(K - 2, -1, -1):
+            e = z3.If(ek == j, as_z3_int(fn(j)), e)
+        return mk(e)
+    return fn(k)
+
+
+def bsum(xs):
+    r = 0
+    for x in xs:
+        r = r + x
+    return r
+
+
+def b2i(c):
+    """bool -> 0/1 (polymorphic)"""
+    if isinstance(c, SymBool):
+        return mk(z3.If(c.e, z3.IntVal(1), z3.IntVal(0)))
+    return 1 if c else 0
+
+
+def bit(v, i):
+    """bit i (concrete i) of v in infinite two's complement"""
+    return (v // (1 << i)) % 2
+
+
+def tier():
+    import os
+    return os.environ.get("PYVC_TIER", "quick")
